@@ -30,12 +30,22 @@ func lockEnvelope(p *Path, mtxField string) ([]*Event, bool) {
 	if !(isCall(evs[0], "Lock") && isMtx(evs[0])) {
 		return nil, false
 	}
-	if !(evs[1].Kind == EvDefer && evs[1].Method == "Unlock" && isMtx(evs[1])) {
-		return nil, false
-	}
 	last := evs[len(evs)-1]
 	if !(isCall(last, "Unlock") && isMtx(last)) {
 		return nil, false
+	}
+	if !(evs[1].Kind == EvDefer && evs[1].Method == "Unlock" && isMtx(evs[1])) {
+		// Lock … Unlock written out: the same envelope when nothing else touches the mutex in between and the path
+		// returns (the unlock rule decides separately whether anything in between could leave it locked)
+		for _, e := range evs[1 : len(evs)-1] {
+			if (isCall(e, "Lock") || isCall(e, "Unlock") || e.Kind == EvDefer) && isMtx(e) {
+				return nil, false
+			}
+		}
+		if p.Exit != ExitReturn {
+			return nil, false
+		}
+		return evs[1 : len(evs)-1], true
 	}
 	return evs[2 : len(evs)-1], true
 }
@@ -82,7 +92,9 @@ func execStateMethods(c *Ctx, which map[string]bool) {
 			c.Unresolved("failsafe.(*execution)."+name, "not found")
 			return nil, nil, "", "", false
 		}
-		ev := NewEvaluator(c.P, EvalConfig{Opaque: map[string]bool{helper: true}, InlineClosures: true})
+		// the result constructors of package internal (FailureResult) are evaluated in place: a hand-built
+		// &PolicyResult{Error: err, Done: true} and internal.FailureResult(err) are the same value
+		ev := NewEvaluator(c.P, EvalConfig{Opaque: map[string]bool{helper: true}, InlineClosures: true, Inline: inlinePkgs(c.P, "internal")})
 		ps := ev.Run(fn)
 		if ev.Err != nil || len(ps) == 0 {
 			c.Undecided(c.fn(fn), c.P.FuncPos(fn), fmt.Sprintf("evaluation failed: %v", ev.Err), "")
@@ -628,7 +640,9 @@ func newExecutionRule(c *Ctx) {
 		if len(now) != 1 || ev.LoadField(p.State, r, "startTime") != now[0].Res[0] || ev.LoadField(p.State, r, "attemptStartTime") != now[0].Res[0] {
 			bad("start time and first attempt start time must be the same single time.Now()")
 		}
-		if ev.LoadField(p.State, r, "ctx") != ev.Param(fn, fn.Params[0].Name()) {
+		// (a nil context is not a context: what a defensive constructor substitutes for it is its own business)
+		given := ev.Param(fn, fn.Params[0].Name())
+		if ev.LoadField(p.State, r, "ctx") != given && p.State.Facts.Truth(ev.TS, ev.TS.Cmp("==", given, ev.TS.Nil(nil))) != triT {
 			bad("the execution's context must be the one given")
 		}
 		box := ev.LoadField(p.State, r, "canceledResult")
@@ -671,7 +685,8 @@ func asyncResultRules(c *Ctx) {
 					seq = append(seq, "result")
 					// the stored pointer must lead to the recorded result
 					a := x.Args[0]
-					if !(a.Op == "alloc" && ev.load(p.State, a, nil) == res) {
+					// … directly (atomic.Pointer[PolicyResult]) or through a fresh box (atomic.Pointer[*PolicyResult])
+					if !(a == res || (a.Op == "alloc" && ev.load(p.State, a, nil) == res)) {
 						seq = append(seq, "wrong-value")
 					}
 				case isCall(x, "Store") && x.Recv.Op == "faddr" && FieldName(x.Recv.Aux) == "done":
@@ -766,7 +781,8 @@ func asyncResultRules(c *Ctx) {
 			has := p.State.Facts.Truth(ts, ts.Cmp("!=", pp, ts.Nil(nil)))
 			if has == triT {
 				inner := ev.load(p.State, pp, nil)
-				if p.Rets[0] != ev.LoadField(p.State, inner, "Result") || p.Rets[1] != ev.LoadField(p.State, inner, "Error") {
+				direct := p.Rets[0] == ev.LoadField(p.State, pp, "Result") && p.Rets[1] == ev.LoadField(p.State, pp, "Error")
+				if !direct && (p.Rets[0] != ev.LoadField(p.State, inner, "Result") || p.Rets[1] != ev.LoadField(p.State, inner, "Error")) {
 					bad("Get must return the recorded result's Result and Error")
 				}
 			}
@@ -851,6 +867,45 @@ func asyncResultRules(c *Ctx) {
 	}
 }
 
+// ctorStoresArg: the constructor called by event e stores, on every path, the value it receives as the k-th entry
+// of e's (normalised) argument list into the named field of the object it returns.
+func ctorStoresArg(c *Ctx, ctor *ssa.Function, e *Event, k int, field string) bool {
+	if ctor == nil || len(ctor.Blocks) == 0 {
+		return false
+	}
+	// which actual parameter receives that argument: the raw argument list is positional
+	raw := e.RawArgs
+	if !e.Normalised {
+		raw = e.Args
+	}
+	want := fullArgs(e)[k]
+	pi := -1
+	off := 0
+	if ctor.Signature.Recv() != nil {
+		off = 1
+	}
+	for i, a := range raw {
+		if a == want {
+			pi = i + off
+		}
+	}
+	if pi < 0 || pi >= len(ctor.Params) {
+		return false
+	}
+	ev := NewEvaluator(c.P, EvalConfig{})
+	prm := ev.TS.intern(&T{Op: "param", Aux: ctor.Params[pi].Name(), Typ: ctor.Params[pi].Type()})
+	ps := ev.Run(ctor)
+	if ev.Err != nil || len(ps) == 0 {
+		return false
+	}
+	for _, p := range ps {
+		if p.Exit != ExitReturn || len(p.Rets) == 0 || ev.LoadField(p.State, p.Rets[0], field) != prm {
+			return false
+		}
+	}
+	return true
+}
+
 // executeAsyncRule: the root async execution owns its cancel function (so Cancel is atomic with the
 // stored cause), the result object is wired to it, and the runner goroutine records execute's value last.
 func executeAsyncRule(c *Ctx) {
@@ -886,7 +941,14 @@ func executeAsyncRule(c *Ctx) {
 				c.Fail(name, pos, "the async execution must run under the cancellable child context created for it", pathTrace(ev, p))
 			}
 			cf := ev.LoadField(p.State, exec, "cancelFunc")
-			if cf != wc[0].Res[1] {
+			threaded := false
+			for k, a := range fullArgs(ne[0]) {
+				// handed to the constructor, which stores it (checked on the constructor's own summary)
+				if a == wc[0].Res[1] && ctorStoresArg(c, ne[0].Fn, ne[0], k, "cancelFunc") {
+					threaded = true
+				}
+			}
+			if cf != wc[0].Res[1] && !threaded {
 				okCancel = false
 				c.Fail(name, pos, "the root execution of an async run must own its context's cancel function: otherwise ExecutionResult.Cancel stores ErrExecutionCanceled under the lock but cancels the context after releasing it, and a retry being initialised in between wipes the cause (the caller then sees a bare context.Canceled)", pathTrace(ev, p))
 			}
